@@ -1,6 +1,247 @@
 import PppModel.Auto
+import PppModel.Lemmas.V1Entry
+import PppModel.Lemmas.V2Blame
+import PppModel.Props.C01
+import PppModel.Props.C06
+import PppModel.Props.C18
 
-/-! # C04 (theorems under construction) -/
+/-!
+# C04 — an accepted header never depends on or consumes the bytes that follow it
+
+For each parser (`v2`, `v1` bytes, `v1` text and both `FromStr`, and the auto-detecting
+`HeaderResult::parse`), if an input `x` is accepted with header `h` then
+
+* `x ++ t` is accepted with the very same `h`, whatever `t` is (`*_trailing`, first part);
+* `h.header` alone is accepted with the same `h` (second part), and `h.header` is a prefix
+  of `x` — so the result is a function of the header bytes only, and the bytes after them
+  are left to the caller;
+* the number of bytes the caller must remove from its buffer is `h.header.length`, which is
+  `16 + declared length` for v2 and `firstCR x + 2` (the line through its LF) for v1
+  (`consumed_length`).
+-/
 
 namespace C04
+open V1
+
+/-! ## v2 -/
+
+/-- **C04 (v2).** -/
+theorem v2_trailing {x : B} {h : V2.Header} (hp : V2.parse x = .ok h) (t : B) :
+    V2.parse (x ++ t) = .ok h ∧ V2.parse h.header = .ok h ∧ h.header <+: x ∧
+      h.header.length = 16 + be16 (byteAt x 14) (byteAt x 15) := by
+  obtain ⟨h1, h2, -, h4⟩ := V2.parse_header_self hp
+  exact ⟨V2.parse_trailing hp t, h1, h2, h4⟩
+
+/-! ## v1, byte entry point -/
+
+/-- An accepted v1 input is CR-frozen: its first CR is at `h.header.length - 2` and the LF
+after it is present; the same holds of the header on its own. -/
+theorem v1_accepted_frozen {x : B} {h : V1.Header} (hp : V1.parseBytes x = .ok h) :
+    ∃ c rest, x = h.header ++ rest ∧ h.header.length = c + 2 ∧
+      V1.firstCR x = some c ∧ c + 1 < x.length ∧
+      V1.firstCR h.header = some c ∧ c + 1 < h.header.length := by
+  obtain ⟨rest, hx, -, -, hl⟩ := (C01.bytes_accept_iff_partial x h).mp hp
+  obtain ⟨-, -, hcr, h15, -⟩ := C01.accepted_header_facts hp
+  obtain ⟨-, hcr', -⟩ := line_window hl
+  refine ⟨h.header.length - 2, rest, hx, by omega, hcr, ?_, hcr', by omega⟩
+  have := congrArg List.length hx
+  simp only [List.length_append] at this
+  omega
+
+/-- **C04 (v1 bytes).** -/
+theorem v1_bytes_trailing {x : B} {h : V1.Header} (hp : V1.parseBytes x = .ok h) (t : B) :
+    V1.parseBytes (x ++ t) = .ok h ∧ V1.parseBytes h.header = .ok h ∧ h.header <+: x ∧
+      (∃ c, V1.firstCR x = some c ∧ h.header.length = c + 2) := by
+  obtain ⟨c, rest, hx, hlen, h1, h2, h3, h4⟩ := v1_accepted_frozen hp
+  refine ⟨?_, ?_, ⟨rest, hx.symm⟩, c, h1, hlen⟩
+  · rw [C18.frozen_stable_bytes x t c h1 h2]; exact hp
+  · rw [← C18.frozen_stable_bytes h.header rest c h3 h4, ← hx]; exact hp
+
+/-! ## v1, text entry point and both `FromStr` -/
+
+/-- The same facts from the text entry point. -/
+theorem v1_accepted_frozen_str {x : B} {h : V1.Header} (hp : V1.parseStr x = .ok h) :
+    ∃ c rest, x = h.header ++ rest ∧ h.header.length = c + 2 ∧
+      V1.firstCR x = some c ∧ c + 1 < x.length ∧
+      V1.firstCR h.header = some c ∧ c + 1 < h.header.length ∧
+      V1.parseHeader h.header = .ok h := by
+  obtain ⟨rest, hx, hlen, hl⟩ := C01.str_accept_line hp
+  obtain ⟨-, -, hcr, h15, -⟩ := C01.accepted_header_facts_str hp
+  obtain ⟨-, hcr', -⟩ := line_window hl
+  refine ⟨h.header.length - 2, rest, hx, by omega, hcr, ?_, hcr', by omega, ?_⟩
+  · have := congrArg List.length hx
+    simp only [List.length_append] at this
+    omega
+  · exact parseHeader_ok_of_line hlen hl
+
+/-- **C04 (v1 text).** `x` and `x ++ t` are both `&str`. -/
+theorem v1_str_trailing {x : B} {h : V1.Header} (hp : V1.parseStr x = .ok h) (t : B)
+    (hx : Utf8.valid x = true) (hxt : Utf8.valid (x ++ t) = true) :
+    V1.parseStr (x ++ t) = .ok h ∧ V1.parseStr h.header = .ok h ∧ h.header <+: x := by
+  obtain ⟨c, rest, hxe, hlen, h1, h2, h3, h4, hph⟩ := v1_accepted_frozen_str hp
+  have htake : x.take (c + 2) = h.header := by
+    rw [hxe, ← hlen]; exact List.take_left' rfl
+  refine ⟨?_, ?_, ⟨rest, hxe.symm⟩⟩
+  · obtain ⟨hw, ht⟩ := window_append_frozen t h1 h2
+    rw [parseStr_ok_iff_window]
+    refine ⟨c + 2, hw, ?_, by rw [ht, htake]; exact hph⟩
+    -- the window is a valid string (it is a well-formed line cut out of `x` at a boundary),
+    -- so it ends on a boundary of the valid string `x ++ t` too
+    obtain ⟨n, hwx, hb, -⟩ := (parseStr_ok_iff_window x h).mp hp
+    rw [windowLength_frozen_cr h1 h2] at hwx
+    cases hwx
+    have hv : Utf8.valid (x.take (c + 2)) = true := by
+      rw [Utf8.valid_take_iff_boundary x hx (c + 2) (by omega)]; exact hb
+    rw [← Utf8.valid_take_iff_boundary (x ++ t) hxt (c + 2) (by simp only [List.length_append]; omega),
+      ht]
+    exact hv
+  · rw [parseStr_ok_iff_window]
+    refine ⟨h.header.length, ?_, Utf8.isCharBoundary_length _, by rw [List.take_length]; exact hph⟩
+    rw [windowLength_frozen_cr h3 h4, hlen]
+
+/-- **C04 (`FromStr for Header`).** -/
+theorem fromStrHeader_trailing {x : B} {h : V1.Header} (hp : V1.fromStrHeader x = .ok h) (t : B)
+    (hx : Utf8.valid x = true) (hxt : Utf8.valid (x ++ t) = true) :
+    V1.fromStrHeader (x ++ t) = .ok h ∧ V1.fromStrHeader h.header = .ok h ∧ h.header <+: x := by
+  simp only [C01.fromStrHeader_eq] at hp ⊢
+  exact v1_str_trailing hp t hx hxt
+
+/-- **C04 (`FromStr for Addresses`).** -/
+theorem fromStrAddresses_trailing {x : B} {a : V1.Addresses} (hp : V1.fromStrAddresses x = .ok a)
+    (t : B) (hx : Utf8.valid x = true) (hxt : Utf8.valid (x ++ t) = true) :
+    V1.fromStrAddresses (x ++ t) = .ok a := by
+  unfold V1.fromStrAddresses at hp
+  cases hs : V1.parseStr x with
+  | error e => rw [hs] at hp; cases hp
+  | ok h =>
+    rw [hs] at hp
+    simp only [Except.ok.injEq] at hp
+    have := (v1_str_trailing hs t hx hxt).1
+    simp [V1.fromStrAddresses, this, hp]
+
+/-! ## Version auto-detection -/
+
+/-- The v2 parser rejects terminally anything that starts with `P`. -/
+theorem v2_rejects_P (r : B) : V2.parse (0x50 :: r) = .error .badPrefix := by
+  by_cases h12 : (0x50 :: r).length < 12
+  · apply V2.blame_signature_short _ h12
+    intro hpre
+    obtain ⟨s, hs⟩ := hpre
+    have := congrArg List.head? hs
+    simp [V2.sig] at this
+  · apply V2.blame_signature _ (by omega)
+    intro hs
+    have := congrArg List.head? hs
+    simp [V2.sig] at this
+
+theorem auto_v2_ok_iff (x : B) (h : V2.Header) : Auto.parse x = .v2 (.ok h) ↔ V2.parse x = .ok h := by
+  rw [C06.auto_def]
+  cases hv : V2.parse x with
+  | ok h' => simp
+  | error e => cases he : e.isIncomplete <;> simp [he]
+
+theorem auto_v1_iff (x : B) (r : Except V1.BinaryParseError V1.Header) :
+    Auto.parse x = .v1 r ↔
+      (∃ e, V2.parse x = .error e ∧ e.isIncomplete = false) ∧ V1.parseBytes x = r := by
+  rw [C06.auto_def]
+  cases hv : V2.parse x with
+  | ok h' => simp
+  | error e =>
+    cases he : e.isIncomplete
+    · simp only [Bool.false_eq_true, if_false, Auto.HeaderResult.v1.injEq, Except.error.injEq,
+        exists_eq_left', he, true_and]
+    · simp [he]
+
+/-- **C04 (auto-detection).** -/
+theorem auto_trailing {x : B} (t : B) :
+    (∀ h, Auto.parse x = .v2 (.ok h) → Auto.parse (x ++ t) = .v2 (.ok h) ∧ Auto.parse h.header = .v2 (.ok h)) ∧
+    (∀ h, Auto.parse x = .v1 (.ok h) → Auto.parse (x ++ t) = .v1 (.ok h) ∧ Auto.parse h.header = .v1 (.ok h)) := by
+  constructor
+  · intro h hp
+    rw [auto_v2_ok_iff] at hp ⊢
+    rw [auto_v2_ok_iff]
+    exact ⟨V2.parse_trailing hp t, (V2.parse_header_self hp).1⟩
+  · intro h hp
+    rw [auto_v1_iff] at hp ⊢
+    rw [auto_v1_iff]
+    obtain ⟨⟨e, he1, he2⟩, hb⟩ := hp
+    obtain ⟨k1, k2, -, -⟩ := v1_bytes_trailing hb t
+    refine ⟨⟨⟨e, V2.terminal_stable he1 he2 t, he2⟩, k1⟩, ⟨?_, k2⟩⟩
+    -- the header starts with `PROXY `
+    obtain ⟨-, -, -, h15, h6⟩ := C01.accepted_header_facts hb
+    refine ⟨.badPrefix, ?_, rfl⟩
+    cases hh : h.header with
+    | nil => rw [hh] at h15; simp at h15
+    | cons b r =>
+      rw [hh] at h6
+      have : b = 0x50 := by
+        have := congrArg List.head? h6
+        simpa [V1.PROXY] using this
+      subst this
+      exact v2_rejects_P r
+
+/-! ## How many bytes the caller must remove -/
+
+/-- The accepted header is a prefix of the input and its length — the number of bytes to
+remove from the buffer before handing the rest to the application — is `16 + declared
+length` for v2 and `first CR + 2` for v1; the auto-detecting parser reports whichever
+applies to the parser that accepted. -/
+theorem consumed_length {x : B} :
+    (∀ h, V2.parse x = .ok h → h.header = x.take h.header.length ∧
+        h.header.length = 16 + be16 (byteAt x 14) (byteAt x 15)) ∧
+    (∀ h, V1.parseBytes x = .ok h → h.header = x.take h.header.length ∧
+        ∃ c, V1.firstCR x = some c ∧ h.header.length = c + 2) ∧
+    (∀ h, V1.parseStr x = .ok h → h.header = x.take h.header.length ∧
+        ∃ c, V1.firstCR x = some c ∧ h.header.length = c + 2) ∧
+    (∀ h, Auto.parse x = .v2 (.ok h) → h.header = x.take h.header.length ∧
+        h.header.length = 16 + be16 (byteAt x 14) (byteAt x 15)) ∧
+    (∀ h, Auto.parse x = .v1 (.ok h) → h.header = x.take h.header.length ∧
+        ∃ c, V1.firstCR x = some c ∧ h.header.length = c + 2) := by
+  have v2 : ∀ h, V2.parse x = .ok h → h.header = x.take h.header.length ∧
+      h.header.length = 16 + be16 (byteAt x 14) (byteAt x 15) := by
+    intro h hp
+    obtain ⟨-, -, h3, h4⟩ := V2.parse_header_self hp
+    exact ⟨by rw [h4]; exact h3, h4⟩
+  have v1 : ∀ h, V1.parseBytes x = .ok h → h.header = x.take h.header.length ∧
+      ∃ c, V1.firstCR x = some c ∧ h.header.length = c + 2 := by
+    intro h hp
+    obtain ⟨c, rest, hx, hlen, h1, -⟩ := v1_accepted_frozen hp
+    refine ⟨?_, c, h1, hlen⟩
+    conv => rhs; rw [hx]
+    exact (List.take_left' rfl).symm
+  refine ⟨v2, v1, ?_, ?_, ?_⟩
+  · intro h hp
+    obtain ⟨c, rest, hx, hlen, h1, -⟩ := v1_accepted_frozen_str hp
+    refine ⟨?_, c, h1, hlen⟩
+    conv => rhs; rw [hx]
+    exact (List.take_left' rfl).symm
+  · intro h hp; exact v2 h ((auto_v2_ok_iff x h).mp hp)
+  · intro h hp; exact v1 h ((auto_v1_iff x _).mp hp).2
+
+/-! ## Non-vacuity -/
+
+/-- `PROXY UNKNOWN\r\n` -/
+private def unk : B := [0x50,0x52,0x4F,0x58,0x59,0x20,0x55,0x4E,0x4B,0x4E,0x4F,0x57,0x4E,0x0D,0x0A]
+
+/-- A v2 LOCAL header without addresses. -/
+private def loc : B := [0x0D,0x0A,0x0D,0x0A,0x00,0x0D,0x0A,0x51,0x55,0x49,0x54,0x0A,0x20,0x00,0x00,0x00]
+
+example : V1.parseBytes unk = .ok ⟨unk, .unknown⟩ := by decide
+example : V1.parseBytes (unk ++ [0x58]) = .ok ⟨unk, .unknown⟩ := by decide
+example : V1.parseBytes (unk ++ [0x0D, 0x0A, 0xFF]) = .ok ⟨unk, .unknown⟩ := by decide
+example : V1.parseStr (unk ++ [0xE2, 0x82, 0xAC]) = .ok ⟨unk, .unknown⟩ := by decide
+example : Auto.parse (unk ++ [0x58]) = .v1 (.ok ⟨unk, .unknown⟩) := by decide
+example : Auto.parse unk = .v1 (.ok ⟨unk, .unknown⟩) := by decide
+private def locH : V2.Header :=
+  { header := loc, version := .two, command := .loc, protocol := .unspec, addresses := .unspec }
+example : V2.parse loc = .ok locH ∧ V2.parse (loc ++ [0x58, 0x59]) = .ok locH ∧
+    Auto.parse (loc ++ [0x58, 0x59]) = .v2 (.ok locH) := by decide
+example (t : B) : Auto.parse (loc ++ t) = .v2 (.ok locH) :=
+  ((auto_trailing (x := loc) t).1 _ (by decide)).1
+/-- Through the theorem: whatever follows `PROXY UNKNOWN\r\n`, the result is the same. -/
+example (t : B) : V1.parseBytes (unk ++ t) = .ok ⟨unk, .unknown⟩ :=
+  (v1_bytes_trailing (x := unk) (by decide) t).1
+example (t : B) : Auto.parse (unk ++ t) = .v1 (.ok ⟨unk, .unknown⟩) :=
+  ((auto_trailing (x := unk) t).2 _ (by decide)).1
+
 end C04
